@@ -29,11 +29,13 @@ pub struct FaultyStore<S: Storage> {
     pub next: Arc<Mutex<Directive>>,
     pub gate: Arc<tokio::sync::Notify>,
     pub reached: Arc<std::sync::atomic::AtomicBool>,
+    /// when set, `iter_metadata` performs the scan, raises `reached` and returns only when `gate` is notified
+    pub gate_meta: Arc<std::sync::atomic::AtomicBool>,
 }
 
 impl<S: Storage> FaultyStore<S> {
     pub fn new(inner: Arc<S>) -> Self {
-        Self { inner, next: Arc::new(Mutex::new(Directive::None)), gate: Arc::new(tokio::sync::Notify::new()), reached: Arc::new(std::sync::atomic::AtomicBool::new(false)) }
+        Self { inner, next: Arc::new(Mutex::new(Directive::None)), gate: Arc::new(tokio::sync::Notify::new()), reached: Arc::new(std::sync::atomic::AtomicBool::new(false)), gate_meta: Arc::new(std::sync::atomic::AtomicBool::new(false)) }
     }
 
     fn take(&self) -> Directive {
@@ -53,14 +55,21 @@ async fn hang() {
 impl<S: Storage> Storage for FaultyStore<S> {
     type Error = FaultyError;
     type DocsIter = S::DocsIter;
-    type MetadataIter = S::MetadataIter;
+    type MetadataIter = std::vec::IntoIter<(Key, HLCTimestamp, bool)>;
 
     async fn get_keyspace_list(&self) -> Result<Vec<String>, Self::Error> {
         self.inner.get_keyspace_list().await.map_err(wrap)
     }
 
     async fn iter_metadata(&self, keyspace: &str) -> Result<Self::MetadataIter, Self::Error> {
-        self.inner.iter_metadata(keyspace).await.map_err(wrap)
+        // the scan is materialised (what a backend reading a snapshot returns)
+        let r: Result<Vec<(Key, HLCTimestamp, bool)>, FaultyError> =
+            self.inner.iter_metadata(keyspace).await.map(|it| it.collect()).map_err(wrap);
+        if self.gate_meta.load(std::sync::atomic::Ordering::SeqCst) {
+            self.reached.store(true, std::sync::atomic::Ordering::SeqCst);
+            self.gate.notified().await;
+        }
+        r.map(|v| v.into_iter())
     }
 
     async fn remove_tombstones(
